@@ -60,6 +60,11 @@ class ConditionEstimator:
         trans_mat = mat.T
         linear_solver = self.linear_solver
 
+        if self.size == 0:
+            # empty system (e.g. all variables active, no constraints):
+            # perfectly conditioned by convention
+            return 1.0
+
         num_its = self._required_its()
         assert num_its > 0
 
